@@ -327,6 +327,9 @@ func fastaDrive(args []string) error {
 				Bytes: []int{}, Want: []faRec{}, Items: []faRec{}}
 			buf := &bytes.Buffer{}
 			nameBefore, seqBefore := bytes.Clone(f.Name), bytes.Clone(f.Sequence)
+			if sid%4 == 1 {
+				failedWriteFirst(f.Write)
+			}
 			ev.Panic, _ = catch(func() { ev.WErr = f.Write(buf) != nil })
 			var bm []byte
 			ev.MPanic, _ = catch(func() {
